@@ -321,6 +321,14 @@ class Repo:
                         normalize.PACKAGE_FUNCTIONS[nm_] = fs_[0]
             except Exception:  # noqa: BLE001
                 pass
+            # new methods of the sheet/table collection class, callable from document.py through ``<x>._sheets.<name>(...)`` /
+            # ``<x>._tables.<name>(...)``
+            normalize.ITEMSLIST_METHODS.clear()
+            if rel.endswith("/document.py"):
+                try:
+                    normalize.ITEMSLIST_METHODS.update(normalize.new_methods(self.raw_tree("containers.py"), "containers.py", "ItemsList"))
+                except Exception:  # noqa: BLE001
+                    pass
             try:
                 normalize.MODEL_SIGNATURES.clear()
                 for c_ in self.raw_tree("model.py").body:
